@@ -183,7 +183,7 @@ EMPTY_ITEM = re.compile(r'^(?:> ?|(?:[-+*]|\d{1,9}[.)]) +| )*(?:[-+*]|\d{1,9}[.)
 def inline_finding(case):
     """class predicates + symptoms of the two recorded findings that the inline spelling families reach"""
     fam, md, html, label = case
-    if fam == 'escape-not' and label.get('ch') == ' ' or fam == 'break' and md.endswith('\\') and False:
+    if fam == 'escape-not' and label.get('ch') == ' ' or fam == 'break' and md.endswith('\\'):
         # a word ending in a literal backslash: once the reflow puts it at the end of a line it reads as a hard line break
         return lambda f: 'KF-C10-word-ending-in-backslash' if (f['sig'] == 'reflow-changes-meaning' and (f.get('observed') or '').count('<br />') > (f.get('expected') or '').count('<br />')) else None
     if fam == 'code':
